@@ -2,7 +2,8 @@ import Bng.Model.Teardown
 /-
   The C16 monitor of component `teardown` (pppoe.SessionTeardown) as a pure function over a STRUCTURED observation,
   so that it can be reasoned about: `Bng.Proof.TeardownMonitor` proves that on every history of the model it raises
-  nothing but the recorded finding KF-pppoe-no-acct-start (`monitor_silent_on_model`).  The string layer
+  nothing but the recorded findings KF-pppoe-no-acct-start and — only for a session whose eBPF-map callback returned
+  an error — KF-pppoe-teardown-ebpf-noretry (`per_session_clauses_silent_on_model`).  The string layer
   (`Bng.Drv.TeardownDrv.parseObs`) is outside that theorem; the driver cross-checks it on the model's own line.
   Core Lean only.
 -/
@@ -12,7 +13,9 @@ open Bng Bng.Teardown
 /-- what the implementation shows after an operation -/
 structure Obs where
   stops : List (Nat × Nat)     -- (session, Accounting-Stops the RADIUS server accepted for it), only counts > 0
-  ebpf : List (Nat × Nat)      -- (session, removals of its eBPF entry)
+  ebpf : List (Nat × Nat)      -- (session, calls of the eBPF-map callback that removed its entry)
+  efail : List (Nat × Nat)     -- (session, calls of the eBPF-map callback that returned an error)
+  fp : List Nat                -- sessions whose fast-path (eBPF map) entry is present
   padt : List (Nat × Nat)      -- (session, PADTs sent for it)
   held : List Nat              -- sessions the pool records an address for
   live : List Nat              -- sessions in the session table
@@ -25,7 +28,7 @@ structure Known where
   mac : Nat
   authed : Bool
   hasIp : Bool
-  torn : Bool := false      -- its eBPF entry was seen removed: the session has been torn down
+  torn : Bool := false      -- the eBPF-map callback was seen called for it: the session has been torn down
   deriving DecidableEq, Repr
 
 structure Mon where
@@ -47,21 +50,28 @@ def note (mn : Mon) : Op → Mon
     { mn with objs := mn.objs.map fun (o : Known) => if o.name == n && !o.torn then { o with authed := false } else o }
   | _ => mn
 
-/-- per session: exactly-once accounting and map removal, nothing held once torn down -/
+/-- per session: exactly-once accounting and map removal, nothing held once torn down.  A session counts as torn down
+    from the moment the eBPF-map callback was called for it (successfully or not): that is the first thing cleanup does. -/
 def perSession (radius : Bool) (o : Known) (ob : Obs) : List Verdict :=
   let st := getCount ob.stops o.name
   let eb := getCount ob.ebpf o.name
+  let ef := getCount ob.efail o.name
   (if st > 1 then [("double-stop", "none", s!"{st} Accounting-Stops were issued for s{o.name}")] else []) ++
-  (if eb > 1 then [("double-cleanup", "none", s!"the eBPF entry of s{o.name} was removed {eb} times")] else []) ++
+  (if eb + ef > 1 then [("double-cleanup", "none", s!"the eBPF-map callback was called {eb + ef} times for s{o.name}")] else []) ++
   (if getCount ob.padt o.name > 1 then [("double-padt", "none", s!"{getCount ob.padt o.name} PADTs were sent for s{o.name}")] else []) ++
   -- recorded finding: nothing in pkg/pppoe ever issues the Accounting-Start this Stop belongs to
   (if st ≥ 1 && !o.torn then [("stop-without-start", "KF-pppoe-no-acct-start", s!"an Accounting-Stop was issued for s{o.name} although no Accounting-Start is ever sent for PPPoE sessions")] else []) ++
-  -- a session that has been torn down (its eBPF entry was removed) holds nothing any more
-  (if eb ≥ 1 then
+  -- a session that has been torn down (the eBPF-map callback was called for it) holds nothing any more
+  (if eb + ef ≥ 1 then
     (if ob.held.contains o.name then [("residue", "none", s!"s{o.name} was terminated but its address is still allocated")] else []) ++
     (if ob.live.contains o.name then [("residue", "none", s!"s{o.name} was terminated but is still in the session table")] else []) ++
     (if radius && o.authed && st == 0 then [("missing-stop", "none", s!"s{o.name} was terminated without an Accounting-Stop")] else []) ++
-    (if !(radius && o.authed) && st > 0 then [("stop-unstarted", "none", s!"an Accounting-Stop was issued for s{o.name} which was never authenticated")] else [])
+    (if !(radius && o.authed) && st > 0 then [("stop-unstarted", "none", s!"an Accounting-Stop was issued for s{o.name} which was never authenticated")] else []) ++
+    -- no fast-path entry still answers for it.  Recorded finding: the one removal attempt of this very session
+    -- returned an error and the code never tries again; an entry that survives a SUCCESSFUL removal is not that finding
+    (if ob.fp.contains o.name then
+      [("ebpf-residue", if ef ≥ 1 && eb == 0 then "KF-pppoe-teardown-ebpf-noretry" else "none",
+        s!"s{o.name} was terminated but its fast-path entry is still present ({eb} removals, {ef} failed removal attempts)")] else [])
    else
     (if st > 0 then [("stop-before-end", "none", s!"an Accounting-Stop was issued for s{o.name} which is not torn down")] else []))
 
@@ -100,7 +110,8 @@ def monitorCore (mn0 : Mon) (op : Op) (ob : Obs) : Mon × List Verdict :=
   let vs := mn.objs.flatMap fun o => perSession mn.radius o ob
   let vt := afterTermination mn op ob
   ({ mn with busy := busyAfter mn op ob,
-             objs := mn.objs.map fun (o : Known) => if getCount ob.ebpf o.name ≥ 1 then { o with torn := true } else o },
+             objs := mn.objs.map fun (o : Known) =>
+               if getCount ob.ebpf o.name + getCount ob.efail o.name ≥ 1 then { o with torn := true } else o },
    vs ++ vt)
 
 /-! ### the model's own observation, structured -/
@@ -110,7 +121,7 @@ def countsOf (m : AMap Nat Nat) : List (Nat × Nat) :=
   (AMap.keys m).filterMap fun k => if count m k > 0 then some (k, count m k) else none
 
 def obsOf (s : TD) (parked : Bool) : Obs :=
-  { stops := countsOf s.stops, ebpf := countsOf s.ebpf, padt := countsOf s.padt,
+  { stops := countsOf s.stops, ebpf := countsOf s.ebpf, efail := countsOf s.efail, fp := s.fp, padt := countsOf s.padt,
     held := s.held, live := (AMap.keys s.live).filterMap (fun id => AMap.lookup s.live id), parked := parked }
 
 /-- did this `tpark` park? (the call is held iff it claimed the session) -/
